@@ -200,6 +200,19 @@ pub fn run(ws: &[&str]) -> String {
                 }
                 c = c.set_redirect_uri(r);
             }
+            // the typestate setters rebuild the client: everything configured so far must survive
+            // them (they are set to decoys here; the endpoint under test is set afterwards)
+            let c = c
+                .set_auth_uri(AuthUrl::new("https://decoy.example/auth".to_string()).unwrap())
+                .set_device_authorization_url(DeviceAuthorizationUrl::new("https://decoy.example/dev".to_string()).unwrap())
+                .set_introspection_url(IntrospectionUrl::new("https://decoy.example/introspect".to_string()).unwrap())
+                .set_revocation_url(RevocationUrl::new("https://decoy.example/revoke".to_string()).unwrap())
+                .set_token_uri(TokenUrl::new("https://decoy.example/token".to_string()).unwrap())
+                .set_auth_uri_option(None)
+                .set_device_authorization_url_option(Some(DeviceAuthorizationUrl::new("https://decoy2.example/dev".to_string()).unwrap()))
+                .set_introspection_url_option(None)
+                .set_revocation_url_option(Some(RevocationUrl::new("https://decoy2.example/revoke".to_string()).unwrap()))
+                .set_token_uri_option(None);
             c
         }};
     }
